@@ -211,13 +211,22 @@ def asgiHeader (lit : Str) (hs : List (Str × Str)) : Str :=
 
 /-- No method or path dispatch.  The answer is sent when `receive()` yields an `http.request` message, which is what the
 model assumes.  All headers of `_bake_output` are forwarded (encoded to bytes).
+
+`parse_qs` is called FIRST and on the `bytes` query string; for `bytes` input the standard library decodes as ASCII,
+unquotes, and re-encodes as ASCII, so it raises `UnicodeEncodeError` / `UnicodeDecodeError` when a percent-escape or a
+raw byte is not ASCII (`parseQsB q = .error .unicodeError`); the exception leaves the coroutine.
 `decodeQ` only matters when the source decodes the query string before `parse_qs` (`asgiQueryDecoded`). -/
+def asgiParams (parseQs : Str → List (Str × List Str)) (parseQsB : Bytes → PyM (List (Bytes × List Bytes)))
+    (decodeQ : Bytes → PyM Str) (q : Bytes) : PyM Params :=
+  if asgiQueryDecoded then (decodeQ q).map fun s => strParams (parseQs s)
+  else (parseQsB q).map bytesParams
+
 def asgiApp {B : Type} (env : Env B) (parseQs : Str → List (Str × List Str))
-    (parseQsB : Bytes → List (Bytes × List Bytes)) (decodeQ : Bytes → Str) (disable : Bool) (s : Scope) : Resp B :=
-  let q := s.queryString.getD []
-  let params := if asgiQueryDecoded then strParams (parseQs (decodeQ q)) else bytesParams (parseQsB q)
-  bakeOutput env (some (asgiHeader asgiAcceptName s.headers)) (some (asgiHeader asgiAcceptEncodingName s.headers))
-    params disable
+    (parseQsB : Bytes → PyM (List (Bytes × List Bytes))) (decodeQ : Bytes → PyM Str) (disable : Bool) (s : Scope) :
+    PyM (Resp B) :=
+  (asgiParams parseQs parseQsB decodeQ (s.queryString.getD [])).map fun params =>
+    bakeOutput env (some (asgiHeader asgiAcceptName s.headers)) (some (asgiHeader asgiAcceptEncodingName s.headers))
+      params disable
 
 /-! ### `MetricsHandler.do_GET` -/
 
